@@ -671,22 +671,149 @@ def dispatch_sets_events(ctx, rule="SIB-interpreter-dispatch"):
 
 
 def seed_fallthrough_events(ctx, rule="EXH-seed-fallthrough"):
+    """The arm of Seed.eval_jaxpr_seed for primitives it does not interpret re-binds the equation.  A primitive whose impl evaluates a
+    sub-jaxpr in Python (custom_jvp_call, custom_vjp_call, remat, closed_call, ...) would then run the sampling sites inside it through the
+    keyless implementation (process-global counter).  Contract (property C14: "or raises the same error for constructs it does not
+    interpret"): before the re-bind, on the path where a sub-jaxpr of the equation contains a sampling site, the site's own
+    `lowering_exception` is raised under the same flag policy as the lowering rule.  Obligations, decided on the guarded event log with
+    the private helpers inlined:
+      O1 a raise precedes the bind in the arm;  O2 the raised value is a sampling site's 'lowering_exception' entry;
+      O3 the raise is guarded by enforce_lowering_exception (positively) and not by its negation;
+      O4 the site search tests membership in {sample_p, adev_sample_p} on equations of a sub-jaxpr, covers ClosedJaxpr and raw Jaxpr
+         params (or uses jax's jaxprs_in_params) and descends into nested sub-jaxprs (recursion, or a library traversal)."""
     ev = mk_ev(ctx)
     dotted = PJ + "Seed.eval_jaxpr_seed"
     s = summarize(ctx, ev, dotted)
     by = events_by_kind(s)
     els = by.get(frozenset({"else"}), [])
-    binds = [e for e in els if e[1] == "call" and e[2][1][0] == "attr" and e[2][1][2] == "bind"]
     construct = "pjax.Seed.eval_jaxpr_seed[else]"
-    ctx.need(bool(binds), "Seed fall-through bind not found (anchor vanished)")
-    inspected = [e for e in els if (e[1] == "raise") or (e[1] == "call" and any(w in ts(e[2][1], ev) for w in ("jaxprs_in_params", "subjaxprs", "jaxpr_as_fun", "closed_call", "seed")))]
-    if inspected:
-        ctx.ok(rule, construct, "fall-through inspects sub-jaxprs or raises")
-    else:
+    loc = func_loc(ctx, dotted)
+    bind_pos = [i for i, e in enumerate(els) if e[1] == "call" and e[2][1][0] == "attr" and e[2][1][2] == "bind"]
+    ctx.need(bool(bind_pos), "Seed fall-through bind not found (anchor vanished)")
+    ib = bind_pos[0]
+    raises = [e for e in els[:ib] if e[1] == "raise"]
+    nested_seed = [e for e in els[:ib] if e[1] == "call" and is_call(e[2], name=PJ + "seed")]
+    if not raises and not nested_seed:
         ctx.bad(rule, construct, "unguarded eqn.primitive.bind(*args, **params)",
                 "higher-order primitives other than cond/scan (custom_jvp_call, custom_vjp_call, checkpoint/remat, closed_call, pjit evaluated eagerly) are re-bound as is: "
                 "a sampling site inside them is evaluated by the primitive's impl with the process-global counter key, silently, in an eagerly executed seed(f); "
-                "input: seed(f)(key) with f sampling inside jax.checkpoint or inside a custom_jvp function", func_loc(ctx, dotted))
+                "input: seed(f)(key) with f sampling inside jax.checkpoint or inside a custom_jvp function", loc)
+        return
+    if not raises:
+        ctx.ok(rule, construct, "fall-through interprets sub-jaxprs through a nested seed(...)")
+        return
+    SAMPLE, ADEV = N(PJ + "sample_p"), N(PJ + "adev_sample_p")
+    problems = []
+    good_raise = None
+    for e in raises:
+        guard, raised = e[0], e[2]
+        rtxt = ts(raised, ev)
+        # O2: the value raised is <site params>['lowering_exception']
+        o2 = any(x[0] == "idx" and x[2] == C("lowering_exception") for x in subterms(raised)) if isinstance(raised, tuple) else False
+        # O3: flag policy — polarity of every occurrence of the flag in the raise's path condition
+        pos_flag = neg_flag = False
+        FLAG = N(PJ + "enforce_lowering_exception")
+
+        def polarity(c, v):
+            nonlocal pos_flag, neg_flag
+            if c == FLAG:
+                pos_flag |= v
+                neg_flag |= not v
+            elif c[0] == "unop" and c[1] == "not":
+                polarity(c[2], not v)
+            elif c[0] == "boolop":
+                for y in c[2]:
+                    polarity(y, v)
+            elif any(x == FLAG for x in subterms(c)):
+                pos_flag |= v       # appears inside a comparison or call: treated as consulted
+        for c, v in guard:
+            if isinstance(c, tuple):
+                polarity(c, bool(v))
+        # O4: membership test on equations of a sub-jaxpr, both primitives
+        tests = [x for c, _ in guard if isinstance(c, tuple) for x in subterms(c) if x[0] == "cmp" and x[1] == "in" and x[3][0] in ("tuple", "list", "set")]
+        tests += [x for x in (subterms(raised) if isinstance(raised, tuple) else ()) if x[0] == "cmp" and x[1] == "in" and x[3][0] in ("tuple", "list", "set")]
+        both = [x for x in tests if {SAMPLE, ADEV} <= set(x[3][1])]
+        only_one = [x for x in tests if len({SAMPLE, ADEV} & set(x[3][1])) == 1]
+        def is_outer(subject):
+            # PPPrimitive.unwrap(<the interpreted equation>.primitive)[0]: the arm's own dispatch test, not part of the search
+            try:
+                eq = subject[1][2][0][1]
+                return subject[0] == "idx" and eq[0] == "iter" and eq[2] == ("attr", ("param", "jaxpr"), "eqns")
+            except (IndexError, TypeError):
+                return False
+        inner = [x for x in both if not is_outer(x[2])]
+        only_one = [x for x in only_one if not is_outer(x[2])]
+        if not o2:
+            problems.append(f"raises {rtxt[:100]} — not a sampling site's 'lowering_exception'")
+            continue
+        if neg_flag and not pos_flag:
+            problems.append("the raise is taken when enforce_lowering_exception is False (policy inverted with respect to the lowering rule)")
+            continue
+        if not pos_flag:
+            problems.append("the raise does not consult enforce_lowering_exception (the lowering rule's policy)")
+            continue
+        if not inner:
+            problems.append("site search tests " + (f"only {ts(only_one[0][3], ev)}" if only_one else "no membership in (sample_p, adev_sample_p)") + " on the sub-jaxpr's equations")
+            continue
+        good_raise = e
+        break
+    if good_raise is None:
+        ctx.bad(rule, construct, "raise site['lowering_exception'] under enforce_lowering_exception when a sub-jaxpr holds a sampling site", "; ".join(dict.fromkeys(problems)), loc)
+        return
+    # O4 (search completeness): structural facts about the search, gathered over the arm's events before the bind
+    allterms = []
+    for e in els[:ib]:
+        for c, _ in e[0]:
+            if isinstance(c, tuple):
+                allterms.extend(subterms(c))
+        if isinstance(e[2], tuple):
+            allterms.extend(subterms(e[2]))
+    names = set()
+    for x in allterms:
+        if x[0] == "call" and x[1][0] == "name":
+            names.add(x[1][1])
+    library = any(n.endswith(("jaxprs_in_params",)) for n in names)
+    isinst = set()
+    for x in allterms:
+        if x[0] == "call" and x[1] == N("builtins.isinstance") and len(x[2]) == 2:
+            k = x[2][1]
+            for y in (k[1] if k[0] in ("tuple", "list") else (k,)):
+                if y[0] == "name":
+                    isinst.add(y[1].rsplit(".", 1)[-1])
+    kinds_ok = library or {"ClosedJaxpr", "Jaxpr"} <= isinst
+    # descent: some module-level helper reachable from the arm both mentions the sampling primitives and lies on a call-graph cycle
+    # (direct or mutual recursion over sub-jaxprs); a library traversal (jaxprs_in_params + subjaxprs) also counts
+    mod_funcs = {}
+    anode, amod = fnode(ctx, dotted)
+    for st in amod.tree.body:
+        if isinstance(st, ast.FunctionDef):
+            mod_funcs[st.name] = st
+    edges = {f: {n.func.id for n in ast.walk(node) if isinstance(n, ast.Call) and isinstance(n.func, ast.Name) and n.func.id in mod_funcs}
+             for f, node in mod_funcs.items()}
+
+    def reach(src):
+        seen, todo = set(), list(edges.get(src, ()))
+        while todo:
+            g = todo.pop()
+            if g not in seen:
+                seen.add(g)
+                todo.extend(edges.get(g, ()))
+        return seen
+    called = {n.rsplit(".", 1)[-1] for n in names if n.startswith(PJ)} & set(mod_funcs)
+    helpers = set(called)
+    for f in called:
+        helpers |= reach(f)
+    mentions = {f for f in helpers if {"sample_p", "adev_sample_p"} <= {n.id for n in ast.walk(mod_funcs[f]) if isinstance(n, ast.Name)}}
+    recursive = any(f in reach(f) for f in mentions) or (library and any(n.endswith("subjaxprs") for n in names))
+    if not kinds_ok:
+        ctx.bad(rule, construct, "sub-jaxprs are found whether the parameter holds a ClosedJaxpr (custom_jvp_call, closed_call, pjit) or a raw Jaxpr (checkpoint/remat)",
+                f"the search recognises only {sorted(isinst & {'ClosedJaxpr', 'Jaxpr'}) or 'neither kind'}: a sampling site inside the other kind of sub-jaxpr is still re-bound unseeded", loc)
+        return
+    if not recursive:
+        ctx.bad(rule, construct, "the site search descends into nested sub-jaxprs",
+                "only the equations of the immediate sub-jaxpr are inspected: a site nested one level deeper (checkpoint inside a custom_jvp function) is still re-bound unseeded", loc)
+        return
+    ctx.ok(rule, construct, "before the re-bind, a sampling site found (recursively) in a ClosedJaxpr/Jaxpr parameter raises its own lowering_exception under enforce_lowering_exception")
 
 
 def dummy_protocol_events(ctx, rule="SIB-dummy-arg"):
